@@ -1,4 +1,4 @@
-CONSTANTS Family = "upper"  MaxOps = 1  Bug = ""  Emit = TRUE  Wide = TRUE
+CONSTANTS Family = "upper"  MaxOps = 1  Bug = ""  Emit = TRUE  Wide = FALSE
 CONSTANT Codes <- MCCodesTwo
 INIT Init
 NEXT Next
